@@ -176,11 +176,33 @@ func byteClass(c byte) string {
 	return fmt.Sprintf("0x%02x", c)
 }
 
-// diffAt names the byte of want at the first position where got differs.
-func diffAt(got, want string) string {
+// mismatchClass is the narrow class of a component that did not survive: for a
+// path the delimiter it contains ('?' or '#': the only bytes that can end the
+// path when left raw); otherwise "dropped", "case" (differs only in ASCII case),
+// "grew" (the original plus extra bytes), "truncated-at-<byte>", or the class of
+// the first byte of want at which got differs.
+func mismatchClass(part, got, want string) string {
+	if part == "path" {
+		switch {
+		case strings.Contains(want, "?"):
+			return "has-0x3f"
+		case strings.Contains(want, "#"):
+			return "has-0x23"
+		}
+	}
+	switch {
+	case got == "" && want != "":
+		return "dropped"
+	case asciiLower(got) == asciiLower(want):
+		return "case"
+	case want != "" && len(got) > len(want) && (strings.HasPrefix(got, want) || strings.HasSuffix(got, want)):
+		return "grew"
+	case strings.HasPrefix(want, got):
+		return "truncated-at-" + byteClass(want[len(got)])
+	}
 	for i := 0; i < len(want); i++ {
 		if i >= len(got) || got[i] != want[i] {
-			return byteClass(want[i])
+			return "differs-at-" + byteClass(want[i])
 		}
 	}
 	return "extra-bytes"
@@ -310,11 +332,11 @@ func TestC27(t *testing.T) {
 				} else if pu.Scheme == "http" || pu.Scheme == "https" {
 					ev["neturl_compared"]++
 					if want := asciiLower(pu.Host); want != sn.Host {
-						fs = append(fs, finding{"neturl-host-" + diffAt(sn.Host, want), fmt.Sprintf("%q: fasthttp host %q, net/url host %q (lower-cased %q)", s, sn.Host, pu.Host, want),
+						fs = append(fs, finding{"neturl-host-" + mismatchClass("host", sn.Host, want), fmt.Sprintf("%q: fasthttp host %q, net/url host %q (lower-cased %q)", s, sn.Host, pu.Host, want),
 							map[string]any{"input": s, "fasthttp_host": sn.Host, "neturl_host": pu.Host}})
 					}
 					if pu.RawQuery != sn.Query {
-						fs = append(fs, finding{"neturl-rawquery-" + diffAt(sn.Query, pu.RawQuery), fmt.Sprintf("%q: fasthttp query %q, net/url RawQuery %q", s, sn.Query, pu.RawQuery),
+						fs = append(fs, finding{"neturl-rawquery-" + mismatchClass("query", sn.Query, pu.RawQuery), fmt.Sprintf("%q: fasthttp query %q, net/url RawQuery %q", s, sn.Query, pu.RawQuery),
 							map[string]any{"input": s, "fasthttp_query": sn.Query, "neturl_query": pu.RawQuery}})
 					}
 				} else {
@@ -331,16 +353,16 @@ func TestC27(t *testing.T) {
 						fs = append(fs, finding{stage + "-scheme", fmt.Sprintf("%q: scheme %q became %q", s, want.Scheme, got.Scheme), map[string]any{"input": s, "stage": stage, "want": want, "got": got}})
 					}
 					if got.Host != want.Host {
-						fs = append(fs, finding{stage + "-host-" + diffAt(got.Host, want.Host), fmt.Sprintf("%q: host %q became %q", s, want.Host, got.Host), map[string]any{"input": s, "stage": stage, "want": want, "got": got}})
+						fs = append(fs, finding{stage + "-host-" + mismatchClass("host", got.Host, want.Host), fmt.Sprintf("%q: host %q became %q", s, want.Host, got.Host), map[string]any{"input": s, "stage": stage, "want": want, "got": got}})
 					}
 					if got.Path != want.Path {
-						fs = append(fs, finding{stage + "-path-" + diffAt(got.Path, want.Path), fmt.Sprintf("%q: path %q became %q", s, want.Path, got.Path), map[string]any{"input": s, "stage": stage, "want": want, "got": got}})
+						fs = append(fs, finding{stage + "-path-" + mismatchClass("path", got.Path, want.Path), fmt.Sprintf("%q: path %q became %q", s, want.Path, got.Path), map[string]any{"input": s, "stage": stage, "want": want, "got": got}})
 					}
 					if got.Hash != want.Hash {
-						fs = append(fs, finding{stage + "-fragment-" + diffAt(got.Hash, want.Hash), fmt.Sprintf("%q: fragment %q became %q", s, want.Hash, got.Hash), map[string]any{"input": s, "stage": stage, "want": want, "got": got}})
+						fs = append(fs, finding{stage + "-fragment-" + mismatchClass("fragment", got.Hash, want.Hash), fmt.Sprintf("%q: fragment %q became %q", s, want.Hash, got.Hash), map[string]any{"input": s, "stage": stage, "want": want, "got": got}})
 					}
 					if withQuery && got.Query != want.Query {
-						fs = append(fs, finding{stage + "-querystring-" + diffAt(got.Query, want.Query), fmt.Sprintf("%q: query string %q became %q", s, want.Query, got.Query), map[string]any{"input": s, "stage": stage, "want": want, "got": got}})
+						fs = append(fs, finding{stage + "-querystring-" + mismatchClass("query", got.Query, want.Query), fmt.Sprintf("%q: query string %q became %q", s, want.Query, got.Query), map[string]any{"input": s, "stage": stage, "want": want, "got": got}})
 					}
 				}
 				// (a) QueryArgs not used yet: FullURI carries the raw query string.
@@ -375,7 +397,7 @@ func TestC27(t *testing.T) {
 				}
 				if reqOK {
 					if pathReq != sn.Path {
-						fs = append(fs, finding{"requesturi-path-" + diffAt(pathReq, sn.Path), fmt.Sprintf("%q: path %q became %q via RequestURI()=%q", s, sn.Path, pathReq, reqURI), map[string]any{"input": s, "request_uri": reqURI}})
+						fs = append(fs, finding{"requesturi-path-" + mismatchClass("path", pathReq, sn.Path), fmt.Sprintf("%q: path %q became %q via RequestURI()=%q", s, sn.Path, pathReq, reqURI), map[string]any{"input": s, "request_uri": reqURI}})
 					}
 					if !sameArgs(argsReq, args) {
 						fs = append(fs, finding{"requesturi-queryargs", fmt.Sprintf("%q: query args %q became %q via RequestURI()=%q", s, args, argsReq, reqURI), map[string]any{"input": s, "request_uri": reqURI, "want": args, "got": argsReq}})
@@ -397,13 +419,13 @@ func TestC27(t *testing.T) {
 				} else {
 					ev["requesturi_args_reparsed"]++
 					if p := string(u2.Path()); p != sn.Path {
-						fs = append(fs, finding{"requesturi-args-path-" + diffAt(p, sn.Path), fmt.Sprintf("%q: path %q became %q via RequestURI()=%q", s, sn.Path, p, req2), map[string]any{"input": s, "request_uri": req2}})
+						fs = append(fs, finding{"requesturi-args-path-" + mismatchClass("path", p, sn.Path), fmt.Sprintf("%q: path %q became %q via RequestURI()=%q", s, sn.Path, p, req2), map[string]any{"input": s, "request_uri": req2}})
 					}
 					if got := argList(u2.QueryArgs()); !sameArgs(got, args) {
 						fs = append(fs, finding{"requesturi-args-queryargs", fmt.Sprintf("%q: query args %q became %q via re-encoded RequestURI()=%q", s, args, got, req2), map[string]any{"input": s, "request_uri": req2, "want": args, "got": got}})
 					}
 				}
-				if r.WantSample() && sn.Query != "" && sn.Hash != "" && sn.Path != "/" && (user || strings.HasPrefix(sn.Host, "[")) {
+				if sn.Query != "" && sn.Hash != "" && sn.Path != "/" && (user || strings.HasPrefix(sn.Host, "[")) && r.WantSample() {
 					r.Sample(map[string]any{"input": s, "fasthttp": sn, "full_uri": full, "request_uri": reqURI, "full_uri_after_queryargs": full2, "query_args": fmt.Sprintf("%q", args),
 						"neturl_ok": nuOK, "neturl_host": func() string {
 							if nuOK {
@@ -415,7 +437,16 @@ func TestC27(t *testing.T) {
 			}()
 			nontrivial := fhOK && (sn.Query != "" || sn.Hash != "" || sn.Path != "/" || user || strings.ContainsAny(sn.Host, ":[") || strings.Contains(s, "%"))
 			classes[cls{classOf(s, fhOK, nuOK, sn, user), nontrivial}]++
+			// a mismatch already reported for the raw-query serialisation is not
+			// reported again for the re-encoded one (same root cause, same key family)
+			have := map[string]bool{}
 			for _, f := range fs {
+				have[f.key] = true
+			}
+			for _, f := range fs {
+				if strings.Contains(f.key, "-args-") && have[strings.Replace(f.key, "-args-", "-", 1)] {
+					continue
+				}
 				r.Violation(i, f.key, f.what, f.payload)
 			}
 		}
